@@ -14,3 +14,4 @@ import WhatIs.Props.C09
 import WhatIs.Props.C03
 import WhatIs.Props.C02
 import WhatIs.Props.C19
+import WhatIs.Props.C05
